@@ -11,5 +11,6 @@ import AkdModel.Insert
 import AkdModel.Thm.C01b
 import AkdModel.Thm.C13
 import AkdModel.Lemmas.PartialStore
+import AkdModel.Lemmas.PartialView
 namespace Akd
 end Akd
